@@ -221,12 +221,18 @@ func samePermuted(a, b *Node) string {
 func forEachAndOr(a, b *Node, f func(a, b *Node)) {
 	if a.IsAndOr() {
 		f(a, b)
+		// siblings with equal keys (two untagged and/or nodes over the same bare leaves) have no unambiguous
+		// counterpart in the other tree: they are left out
 		byKey := map[string]*Node{}
+		cnt := map[string]int{}
 		for _, c := range b.Ch {
-			byKey[tagKey(c)] = c
+			k := tagKey(c)
+			byKey[k] = c
+			cnt[k]++
 		}
 		for _, c := range a.Ch {
-			if o := byKey[tagKey(c)]; o != nil {
+			k := tagKey(c)
+			if o := byKey[k]; o != nil && cnt[k] == 1 {
 				forEachAndOr(c, o, f)
 			}
 		}
@@ -239,10 +245,19 @@ func forEachAndOr(a, b *Node, f func(a, b *Node)) {
 	}
 }
 
+// posOf: position of every operand by key; operands whose key is not unique among their siblings are left out
 func posOf(n *Node) map[string]int {
 	m := map[string]int{}
+	cnt := map[string]int{}
 	for i, c := range n.Ch {
-		m[tagKey(c)] = i
+		k := tagKey(c)
+		m[k] = i
+		cnt[k]++
+	}
+	for k, c := range cnt {
+		if c > 1 {
+			delete(m, k)
+		}
 	}
 	return m
 }
@@ -393,6 +408,12 @@ func c16Laws(w *W, r *rand.Rand, g *c16Gen) {
 				for _, c2 := range x.Ch {
 					k1, k2 := tagKey(c1), tagKey(c2)
 					if k1 == k2 {
+						continue
+					}
+					if _, ok := pa[k1]; !ok {
+						continue
+					}
+					if _, ok := pa[k2]; !ok {
 						continue
 					}
 					m1n, m2n := mentions(c1, n), mentions(c2, n)
